@@ -4,7 +4,8 @@ quick check (plus any extra checks listed in EXTRA), restore the tree, and recor
 import json, os, re, subprocess, sys
 D = "/verif/seeded"
 EXTRA = {"C02-1": ["C03"], "C03-2": ["C04"], "C06-1": ["C08"], "C06-2": ["C01"], "C08-2": ["C01"], "C19-1": ["C18"], "C19-2": ["C18"],
-         "C18-1": ["C19"], "C01-1": ["C06"], "C12-1": ["C01"]}
+         "C18-1": ["C19"], "C01-1": ["C06"], "C12-1": ["C01"], "C02-3": ["C03"], "C09-3": ["C11"], "C11-3": ["C09"], "C12-3": ["C09"],
+         "C02-4": ["C09", "C10"], "C10-3": ["C09", "C02"], "C11-4": ["C03"]}
 names = sys.argv[1:] or sorted(os.listdir(D))
 env = dict(os.environ, GOFLAGS="-mod=mod", GOPROXY="off", GOSUMDB="off", GOTOOLCHAIN="local")
 for n in names:
